@@ -36,7 +36,7 @@ impl Compound for RE {
 }
 
 pub struct TLoader;
-fn decode(content: &[u8]) -> Result<String, BoxedError> {
+fn decode_value(content: &[u8]) -> Result<String, BoxedError> {
     let s = std::str::from_utf8(content)?;
     match s.strip_prefix("ok:") {
         Some(v) => Ok(v.to_string()),
@@ -45,12 +45,12 @@ fn decode(content: &[u8]) -> Result<String, BoxedError> {
 }
 impl Loader<A1> for TLoader {
     fn load(content: Cow<[u8]>, _: &str) -> Result<A1, BoxedError> {
-        Ok(A1(decode(&content)?))
+        Ok(A1(decode_value(&content)?))
     }
 }
 impl Loader<A2> for TLoader {
     fn load(content: Cow<[u8]>, _: &str) -> Result<A2, BoxedError> {
-        Ok(A2(decode(&content)?))
+        Ok(A2(decode_value(&content)?))
     }
 }
 impl Asset for A1 {
@@ -714,4 +714,49 @@ impl Prop for C02 {
     fn required_labels(&self) -> Vec<&'static str> {
         vec!["mutation-after-insert/two-types", "dir-load", "compound"]
     }
+}
+
+/// Fuzz decoder.
+pub fn decode(u: &mut arbitrary::Unstructured) -> arbitrary::Result<Value> {
+    let mut files = BTreeMap::new();
+    for id in IDS {
+        match u.int_in_range(0..=3)? {
+            0 | 1 => {
+                files.insert(id.to_string(), FileState::Valid(u.int_in_range(0..=2)?));
+            }
+            2 => {
+                files.insert(id.to_string(), FileState::Bad);
+            }
+            _ => {}
+        }
+    }
+    let mut dirs = Vec::new();
+    for d in ["g", "d.e", "h.i"] {
+        if u.arbitrary()? {
+            dirs.push(d.to_string());
+        }
+    }
+    let types = [T::A1, T::A2, T::CP, T::S1, T::RE];
+    let mut ops = Vec::new();
+    for _ in 0..u.int_in_range(1..=50)? {
+        let t = types[u.int_in_range(0..=4)?];
+        let loadable = if t == T::S1 { T::A1 } else { t };
+        let id = IDS[u.int_in_range(0..=IDS.len() - 1)?].to_string();
+        let dir = DIR_IDS[u.int_in_range(0..=DIR_IDS.len() - 1)?].to_string();
+        let dt = if u.arbitrary()? { T::Dir } else { T::Rec };
+        ops.push(match u.int_in_range(0..=12)? {
+            0 | 1 => Op::Load(loadable, id),
+            2 => Op::LoadOwned(loadable, id),
+            3 => Op::GetCached(t, id),
+            4 | 5 => Op::GetOrInsert(t, id, u.int_in_range(0..=3)?),
+            6 => Op::Contains(t, id),
+            7 => Op::Remove(t, id),
+            8 => Op::Take(t, id),
+            9 => Op::Clear,
+            10 => Op::Load(dt, dir),
+            11 => Op::Remove(dt, dir),
+            _ => Op::Take(dt, dir),
+        });
+    }
+    Ok(to_case(&Case { files, dirs, ops }))
 }
